@@ -4,10 +4,17 @@
     req = create_request_by_name(name); set fields        -> `Layout` of the request class + field values
     rsp = self.send_message(req)                          -> `encode`, the interface (here: the BMC), `decode`
     check_completion_code(rsp.completion_code)            -> `ccError cc`
+    return State(rsp) / rsp.field                         -> `post`
 
-  The interface is `Spec.Bmc.handle` applied to (netfn, lun, cmd, encoded request); the response
-  class is the one registered under (netfn + 1, cmd, group extension) — `create_message` in every
-  `send_and_receive`.  Field values are positional (declaration order of the generated layout).
+  Every modelled operation is ONE such exchange, so an operation is an `Exchange`:
+  (request class, response class, LUN, request field values | exception raised while the
+  request is built, response field values ↦ result | exception).  `Exchange.request` is the
+  request the operation puts on the wire (compared byte for byte with the real one by the
+  correspondence run); `Exchange.run` plays it against the reference BMC `Spec.Bmc.handle`
+  and returns the BMC's state afterwards together with what the call returned or raised.
+  The response class is the one registered under (netfn + 1, cmd, group extension) —
+  `create_message` in every `send_and_receive`.  Field values are positional (declaration
+  order of the generated layout).
 -/
 import PyIpmi.Base.Outcome
 import PyIpmi.Model.Codec
@@ -15,15 +22,46 @@ import PyIpmi.Spec.Bmc
 namespace PyIpmi.Model.Api
 open PyIpmi PyIpmi.Codec PyIpmi.Spec.Bmc
 
-/-- one request/response exchange of `Ipmi.send_message` + completion-code check -/
-def transact (req rsp : MsgSpec) (lun : Nat) (vals : List Val) (s : BmcState) : Outcome (BmcState × List Val) :=
-  (encode req.layout vals).bind fun bytes =>
-    let r := handle s { netfn := req.netfn, lun := lun, cmd := req.cmd, data := bytes }
-    (decode rsp.layout r.2).bind fun rv =>
-      match rv with
-      | .int 0 :: _ => .ok (r.1, rv)
-      | .int cc :: _ => .ccError cc
-      | _ => .pyError "AttributeError"
+/-- `check_completion_code` on the decoded response (field 0 is the completion code) -/
+def checkCc (rv : List Val) : Outcome Unit :=
+  match rv with
+  | .int 0 :: _ => .ok ()
+  | .int cc :: _ => .ccError cc
+  | _ => .pyError "AttributeError"
+
+structure Exchange where
+  req : MsgSpec
+  rsp : MsgSpec
+  lun : Nat := 0
+  /-- field values of the request object when it is sent, or the exception raised before that -/
+  vals : Outcome (List Val)
+  /-- `State(rsp)` / `rsp.<field>`: decoded response ↦ return value -/
+  post : List Val → Outcome Result
+
+/-- the request on the wire: (netfn, lun, cmd, encoded fields) -/
+def Exchange.request (x : Exchange) : Outcome Req :=
+  x.vals.bind fun v =>
+    (encode x.req.layout v).bind fun bytes =>
+      .ok { netfn := x.req.netfn, lun := x.lun, cmd := x.req.cmd, data := bytes }
+
+/-- the exception of a failed `Outcome`, at another type -/
+def reraise {α β} (o : Outcome α) : Outcome β := o.bind fun _ => .pyError "RuntimeError"
+
+/-- one API call against the BMC in state `s`: BMC state afterwards, return value / exception -/
+def Exchange.run (x : Exchange) (s : BmcState) : BmcState × Outcome Result :=
+  match x.request with
+  | .ok r =>
+    let a := handle s r
+    (a.1, (decode x.rsp.layout a.2).bind fun rv => (checkCc rv).bind fun _ => x.post rv)
+  | e => (s, reraise e)
+
+/-- an operation that raises before any request exists -/
+def Exchange.raise (e : Outcome (List Val)) : Exchange :=
+  { req := default, rsp := default, vals := e, post := fun _ => .pyError "RuntimeError" }
+
+/-- the BMC after the call / what the call returned -/
+def bmcAfter (x : Exchange) (s : BmcState) : BmcState := (x.run s).1
+def resultOf (x : Exchange) (s : BmcState) : Outcome Result := (x.run s).2
 
 /-! positional access to decoded field values -/
 def intAt (vs : List Val) (i : Nat) : Nat :=
